@@ -22,6 +22,11 @@ func C08_Pool() {
 	switch nd.Choice(4) {
 	case 0:
 		a, aerr := p.Query(bg, doc, v)
+		if errClass(aerr) == eHard {
+			// the non-suppressible errors are the listed ones; of those the
+			// pool can raise: unknown variable, decimal precision (0) or scale (2000)
+			nd.Assert(contains(src, "$missing") || contains(src, "2000") || contains(src, "decimal(0)"), tag+"/Query/non-suppressible-error-not-among-the-listed")
+		}
 		b, berr := p.Query(bg, doc, v, exec.WithSilent())
 		nd.Assert(berr == nil || !isVerbose(berr), tag+"/Query/silent-returns-suppressible-error")
 		switch errClass(aerr) {
